@@ -477,7 +477,7 @@ Proof.
   rewrite rd_cons; cbn [obind].
   change (0 :: 0 :: 0 :: 0 :: ?l) with ([0; 0; 0; 0] ++ l). rewrite (rd_app 4 [0; 0; 0; 0]) by reflexivity. cbn [obind].
   rewrite rd_le by exact Hcnt. cbn [obind].
-  change ([0; 0; 0; 0] ++ ?l) with ([0; 0; 0; 0] ++ l). rewrite (rd_app 4 [0; 0; 0; 0]) by reflexivity. cbn [obind].
+  change (0 :: 0 :: 0 :: 0 :: ?l) with ([0; 0; 0; 0] ++ l). rewrite (rd_app 4 [0; 0; 0; 0]) by reflexivity. cbn [obind].
   rewrite rd_le by (change (256 ^ N.of_nat 8) with M64; unfold M64, S_MAX_THETA in *; lia). cbn [obind].
   unfold ensure_theta. change MAX_THETA with S_MAX_THETA.
   destruct (N.eqb_spec (a_theta a) 0); [lia|]. destruct (N.ltb_spec S_MAX_THETA (a_theta a)); [lia|]. cbn [orb obind].
@@ -498,4 +498,63 @@ Proof.
     rewrite read_entries_flat; [|unfold M64, S_MAX_THETA in *; lia|exact Hent]. cbn [obind].
     unfold ensure_ordered. rewrite <- asc_ascending_b, (Hord Ho). cbn [obind].
     unfold conc. rewrite Hem, Ho, Hseed. reflexivity.
+Qed.
+
+Theorem reads_v2 : forall sh a, abs_okb a = true -> expressible V2 a = true -> a_seed_hash a = sh ->
+  c_deserialize sh (enc_v2 a) = Ok (conc a).
+Proof.
+  intros sh a Hok Hex Hseed. subst sh. destruct (expressible_12 a Hex) as [Ho Hem].
+  destruct (abs_ok_parts a Hok) as [Hent [Hth0 [Hth [Hemp [Hord [Hsd Hcnt]]]]]].
+  unfold enc_v2, c_deserialize. set (pre := if est a then 3 else if a_empty a then 1 else 2).
+  assert (Hpre : 1 <= pre /\ pre <= 3) by (unfold pre; destruct (est a); [lia|destruct (a_empty a); lia]).
+  cbn [app]. change S_FAMILY_THETA with 3.
+  do 3 (rewrite rd_cons; cbn [obind]).
+  change (negb (3 =? zN GenCodec.FAMILY_THETA_ID)) with false. cbv iota.
+  change (zN GenCodec.FAMILY_THETA_MIN_PRE_LONGS) with 1. change (zN GenCodec.FAMILY_THETA_MAX_PRE_LONGS) with 3.
+  destruct (N.leb_spec 1 pre); [|lia]. destruct (N.leb_spec pre 3); [|lia]. cbn [andb negb].
+  change (2 =? 1) with false. change (2 =? 2) with true. cbv iota. unfold deserialize_v2.
+  rewrite rd_cons; cbn [obind].
+  change (0 :: 0 :: ?l) with ([0; 0] ++ l). rewrite (rd_app 2 [0; 0]) by reflexivity. cbn [obind].
+  rewrite rd_le by exact Hsd. cbn [obind]. rewrite N.eqb_refl. cbn [negb].
+  change (zN GenTheta.V2_PREAMBLE_EMPTY) with 1. change (zN GenTheta.V2_PREAMBLE_PRECISE) with 2.
+  change (zN GenTheta.V2_PREAMBLE_ESTIMATE) with 3.
+  unfold pre. unfold est in *. change MAX_THETA with S_MAX_THETA.
+  destruct (N.ltb_spec (a_theta a) S_MAX_THETA) as [Hest|Hex2].
+  - (* estimating *)
+    change (3 =? 1) with false. change (3 =? 2) with false. change (3 =? 3) with true. cbv iota.
+    cbn [negb] in Hem. rewrite andb_false_r in Hem.
+    rewrite <- app_assoc. rewrite rd_le by exact Hcnt. cbn [obind app].
+    change (0 :: 0 :: 0 :: 0 :: ?l) with ([0; 0; 0; 0] ++ l). rewrite (rd_app 4 [0; 0; 0; 0]) by reflexivity. cbn [obind].
+    rewrite rd_le by (change (256 ^ N.of_nat 8) with M64; unfold M64, S_MAX_THETA in *; lia). cbn [obind].
+    unfold ensure_theta. change MAX_THETA with S_MAX_THETA.
+    destruct (N.eqb_spec (a_theta a) 0); [lia|]. destruct (N.ltb_spec S_MAX_THETA (a_theta a)); [lia|]. cbn [orb obind].
+    unfold entry_bytes, cnt_of. rewrite read_entries_flat; [|unfold M64, S_MAX_THETA in *; lia|exact Hent]. cbn [obind].
+    unfold ensure_ordered. rewrite <- asc_ascending_b, (Hord Ho). cbn [obind].
+    destruct (N.eqb_spec (a_theta a) S_MAX_THETA); [lia|]. rewrite andb_false_r.
+    unfold conc. rewrite Hem, Ho. reflexivity.
+  - assert (Et : a_theta a = S_MAX_THETA) by lia. cbn [negb] in Hem. rewrite andb_true_r in Hem.
+    destruct (a_empty a) eqn:Ee.
+    + (* empty *)
+      change (1 =? 1) with true. cbv iota. destruct (Hemp eq_refl) as [Ees _].
+      unfold conc. rewrite Ees, Ee, Ho, Et. reflexivity.
+    + change (2 =? 1) with false. change (2 =? 2) with true. change (2 =? 3) with false. cbv iota.
+      rewrite app_nil_l. rewrite <- app_assoc. rewrite rd_le by exact Hcnt. cbn [obind app].
+      change (0 :: 0 :: 0 :: 0 :: ?l) with ([0; 0; 0; 0] ++ l). rewrite (rd_app 4 [0; 0; 0; 0]) by reflexivity. cbn [obind].
+      unfold entry_bytes, cnt_of. rewrite <- Et.
+      rewrite read_entries_flat; [|unfold M64, S_MAX_THETA in *; lia|exact Hent]. cbn [obind].
+      unfold ensure_ordered. rewrite <- asc_ascending_b, (Hord Ho). cbn [obind].
+      unfold cnt_of in Hem. rewrite <- Hem.
+      unfold conc. rewrite Ee, Ho. reflexivity.
+Qed.
+
+(* every variant, in one statement *)
+Theorem reads_every_variant : forall sh v a, abs_okb a = true -> expressible v a = true ->
+  a_seed_hash a = sh -> c_deserialize sh (enc_spec v a) = Ok (conc a) /\ abs_of (conc a) = a.
+Proof.
+  intros sh v a Hok Hex Hseed. split; [|apply abs_conc].
+  destruct v as [| |sf|]; cbn [enc_spec].
+  - now apply reads_v1.
+  - now apply reads_v2.
+  - apply reads_v3; [exact Hok|intros _; exact Hseed].
+  - apply reads_v4; [exact Hok|intros _; exact Hseed|exact Hex].
 Qed.
